@@ -236,6 +236,12 @@ pub fn probes() -> Vec<ProbeSrc> {
     v.push(simple("Reference::from_ptr_mutex/outside-unsafe", "C16/lifetime/Reference::from_ptr_mutex/callable-in-safe-code", "pub fn probe() -> i32 {\n    let r = { let x = std::sync::Mutex::new(5i32); Reference::from_ptr_mutex(&x as *const std::sync::Mutex<i32>) };\n    *r.borrow()\n}\n", None));
     v.push(simple("ReferenceUnsafe::Ptr/borrow-outside-unsafe", "C16/lifetime/ReferenceUnsafe::borrow/callable-in-safe-code", "pub fn probe() -> i32 {\n    let r = { let mut x = 5i32; reference::ReferenceUnsafe::Ptr(&mut x as *mut i32) };\n    *r.borrow()\n}\n", None));
     v.push(simple("ReferenceUnsafe::Ptr/into-Reference", "C16/lifetime/ReferenceUnsafe/convertible-to-Reference", "pub fn probe() -> i32 {\n    let r: Reference<i32> = { let mut x = 5i32; reference::ReferenceUnsafe::Ptr(&mut x as *mut i32).into() };\n    *r.borrow()\n}\n", None));
+    v.push(simple(
+        "to_dyn/duck-typed-into_inner",
+        "C16/lifetime/to_dyn/accepts-any-into_inner",
+        "pub struct Fake(*mut i32);\nimpl Fake {\n    pub fn into_inner(self) -> reference::ReferenceUnsafe<i32> {\n        reference::ReferenceUnsafe::Ptr(self.0)\n    }\n}\npub trait Val {\n    fn v(&self) -> i32;\n}\nimpl Val for i32 {\n    fn v(&self) -> i32 {\n        *self\n    }\n}\npub fn probe() -> i32 {\n    let r: Reference<dyn Val> = { let mut x = 5i32; to_dyn!(Val, Fake(&mut x as *mut i32)) };\n    let out = r.borrow().v();\n    out\n}\n",
+        Some("pub trait Val {\n    fn v(&self) -> i32;\n}\nimpl Val for i32 {\n    fn v(&self) -> i32 {\n        *self\n    }\n}\npub fn probe() -> i32 {\n    let r: Reference<dyn Val> = to_dyn!(Val, rc_ref_cell_reference(5i32));\n    let out = r.borrow().v();\n    out\n}\n"),
+    ));
     v.push(simple("static_reference/non-static-initialiser", "C16/lifetime/static_reference/local-initialiser", "pub fn probe() -> i32 {\n    let x = 5i32;\n    let r = static_reference!(i32, x);\n    *r.borrow()\n}\n", None));
     v.push(simple("rc_ref_cell_reference/borrow-outlives-reference", "C16/lifetime/Reference::borrow/outlives-reference", "pub fn probe() -> i32 {\n    let b = { let r = rc_ref_cell_reference(5i32); r.borrow() };\n    *b\n}\n", Some("pub fn probe() -> i32 {\n    let r = rc_ref_cell_reference(5i32);\n    let b = r.borrow();\n    *b\n}\n")));
     v.push(simple("GetterFromHistory/history-outlived", "C16/lifetime/GetterFromHistory/history-outlived", "pub fn probe() -> Output<Command, ()> {\n    let clock = rc_ref_cell_reference(Time(1));\n    let g = { let mut mp = MotionProfile::new(State::new_raw(0.0,0.0,0.0), State::new_raw(3.0,0.0,0.0), Quantity::new(0.1, MILLIMETER_PER_SECOND), Quantity::new(0.01, MILLIMETER_PER_SECOND_SQUARED)); GetterFromHistory::new_no_delta(&mut mp, clock.clone()) };\n    g.get()\n}\n", Some("pub fn probe() -> Output<Command, ()> {\n    let clock = rc_ref_cell_reference(Time(1));\n    let mut mp = MotionProfile::new(State::new_raw(0.0,0.0,0.0), State::new_raw(3.0,0.0,0.0), Quantity::new(0.1, MILLIMETER_PER_SECOND), Quantity::new(0.01, MILLIMETER_PER_SECOND_SQUARED));\n    let g = GetterFromHistory::new_no_delta(&mut mp, clock.clone());\n    g.get()\n}\n")));
